@@ -197,13 +197,14 @@ def load_cases(outdir):
 
 
 def known_findings(pid):
-    path = os.path.join(VERIF, "known_findings.json")
-    if not os.path.exists(path):
-        return {}
     out = {}
-    for e in json.load(open(path)).get("findings", []):
-        if e.get("property") == pid and e.get("status") == "open":
-            out[int(e["code"])] = e
+    paths = [os.path.join(VERIF, "known_findings.json")] + sorted(glob.glob(os.path.join(VERIF, "known_findings.d", "*.json")))
+    for path in paths:
+        if not os.path.exists(path):
+            continue
+        for e in json.load(open(path)).get("findings", []):
+            if e.get("property") == pid and e.get("status") == "open":
+                out[int(e["code"])] = e
     return out
 
 
